@@ -14,6 +14,7 @@ from . import core
 from .report import RuleResult
 
 RULE_TEXT = " ".join(x.strip() for x in __doc__.split("\n")[2:] if x.strip())
+CTOR_HINT = "classicalbacktrack::MatchAttempter::<'a, Input>::new"
 POP_HELPER = "classicalbacktrack::MatchAttempter::<'a, Input>::pop_backtrack"
 
 
@@ -61,6 +62,7 @@ def check(facts):
                 tops.append(t["dest"]["l"])
         top_switch = None
         exhausted_tgt = None
+        saved_stacks = set()
         for bi, i, s in b.iter_stmts():
             if s["k"] == "assign" and s["rv"]["k"] == "discr" and "BacktrackInsn" in (s["rv"].get("enum") or ""):
                 t = b.blocks[bi]["t"]
@@ -75,7 +77,7 @@ def check(facts):
             name = cal.split("::")[-1]
             is_helper = (t.get("resolved") or cal) == POP_HELPER
             if not is_helper and not (t["args"] and rooted_bts(b, t["args"][0])):
-                if name == "swap" and cal.endswith("mem::swap") and any(rooted_bts(b, a) for a in t["args"]):
+                if name in ("swap", "replace") and cal.endswith(("mem::swap", "mem::replace")) and any(rooted_bts(b, a) for a in t["args"]):
                     pass
                 else:
                     continue
@@ -96,7 +98,7 @@ def check(facts):
                     r.ok(key, "truncate(%d)" % a["int"])
                 else:
                     r.fail(key, "truncate with a length that is not a constant >= 1 can drop the Exhausted backstop", where)
-            elif name == "swap":
+            elif name in ("swap", "replace") and cal.endswith(("mem::swap", "mem::replace")):
                 other = [a for a in t["args"] if not rooted_bts(b, a)]
                 ok = False
                 if len(other) == 1 and other[0]["k"] in ("copy", "move"):
@@ -104,6 +106,8 @@ def check(facts):
                     ds = b.defs().get(rt, [])
                     ok = bool(ds) and all(d[2] == "call" and (d[3].get("callee") or "").endswith(("box_assume_init_into_vec_unsafe", "into_vec", "from_elem"))
                                           for d in ds)
+                if ok and name == "replace":
+                    saved_stacks.add(t["dest"]["l"])
                 if ok:
                     r.ok(key, "exchanged with a vec![Exhausted] (and back)")
                 else:
@@ -122,6 +126,22 @@ def check(facts):
                                 "set_len underflow / unreachable_unchecked)", where)
             else:
                 r.fail(key, "unclassified operation on the backtrack stack", where)
+        # whole-stack assignment `self.bts = X`: X is the outer stack taken out earlier by mem::replace, or a fresh vec![Exhausted]
+        for bi, i, s in b.iter_stmts():
+            if s["k"] == "assign" and "*" in s["pl"]["p"] and core.proj_fields(s["pl"])[-1:] == ["bts"] and fn != CTOR_HINT:
+                n += 1
+                key = "%s bts assigned" % fn
+                op = s["rv"].get("op") if s["rv"]["k"] == "use" else None
+                src = b.root_of(op["pl"]["l"])[0] if op and op.get("k") in ("copy", "move") else None
+                fresh = False
+                if src is not None:
+                    ds = b.defs().get(src, [])
+                    fresh = bool(ds) and all(d[2] == "call" and (d[3].get("callee") or "").endswith(("box_assume_init_into_vec_unsafe", "into_vec", "from_elem"))
+                                             for d in ds)
+                if src in saved_stacks or fresh:
+                    r.ok(key, "restores the stack taken out by mem::replace" if src in saved_stacks else "a fresh vec![Exhausted]")
+                else:
+                    r.fail(key, "the backtrack stack is replaced by a vector that is not known to start with Exhausted", facts.loc(fn, s["line"]))
         # in-place overwrite of the top
         for bi, i, s in b.iter_stmts():
             if s["k"] == "assign" and s["pl"]["p"] == ["*"] and b.local_ty(s["pl"]["l"]).startswith("&mut classicalbacktrack::BacktrackInsn<"):
